@@ -84,6 +84,16 @@ fn build(ch: &mut Chooser, family: &str) -> (&'static str, Vec<u8>, String, bool
             let mut pkg = (size as u64).to_le_bytes().to_vec();
             pkg.extend(cipher(size.saturating_sub(8), 7));
             pkg.truncate(size.max(8));
+            // ciphertext is arbitrary bytes: here it happens to end in a well-formed zip archive (a plain workbook), padded in front so
+            // that the stream fills its sectors and, with the default sector order, the file itself ends like a zip file
+            if ch.flag("ciphertext-ends-in-a-zip-archive") {
+                let inner = xlsb::write(&xlsb::BBook { sheets: vec![xlsb::BSheet::new("Leaked", vec![xlsb::BItem::Cell { row: 0, col: 0, style: 0, val: xlsb::BVal::St("plain".into()) }])], sst: (0..300).map(|i| format!("filler string number {i}")).collect(), ..Default::default() }, Method::Stored);
+                let body = 8 + inner.len();
+                let padded = body.div_ceil(512).max(9) * 512;
+                pkg = (inner.len() as u64).to_le_bytes().to_vec();
+                pkg.extend(cipher(padded - body, 23));
+                pkg.extend(inner);
+            }
             e.push(cfb::Entry::stream("EncryptedPackage", pkg, None));
             let lay = layout(ch);
             (reader, cfb::write(&e, &lay), format!("encrypted OOXML: package {size} bytes, info variant {info}, dataspaces {dataspaces}, {lay:?}"), true)
@@ -222,7 +232,7 @@ fn huge_package(rep: &Report) {
 pub fn check(rep: &Report) {
     let t = crate::thorough(&rep.tier);
     huge_package(rep);
-    rep.rule("encrypted OOXML: EncryptedPackage of {8, 4095, 4096, 4097, 5000, 70000} bytes x EncryptionInfo {standard, agile, agile > 4096 bytes, absent, extensible 3.3 / 4.3} x DataSpaces storage present/absent x CFB layouts (v3/v4, 5 sector orders, mini order, unused entries, directory order, free sectors), opened with Xlsx and Xlsb from a reader positioned at the start, after the 8 magic bytes or at the end; BIFF: FILEPASS of 5 kinds (BIFF8 RC4, XOR obfuscation, CryptoAPI v2/v4; the 4-byte BIFF5 XOR form in a Book stream) directly after BOF or after WRITEPROTECT, record bodies garbled, mini stream or regular sectors, with or without an (unencrypted) VBA project, CFB layouts; every reader fed whole or in reads of at most 7 / 500 bytes; ods: manifests (plain, or with comments and line breaks between and inside the entries) with 3-5 entries and encryption-data on the first, a middle, the last, all or several entries, ciphertext content; converse: unencrypted workbooks of all four formats (xlsx under every encoding of C01, xls under CFB layouts with extra streams or an embedded encrypted OOXML object, names and strings that spell 'EncryptedPackage' / 'FILEPASS' / 'encryption-data') must open; full product for ods, <= 4 deviations (thorough: full product) for ooxml, biff and plain; non-trivial = non-default choice");
+    rep.rule("encrypted OOXML: EncryptedPackage of {8, 4095, 4096, 4097, 5000, 70000} bytes or ending in a zip archive at the very end of the file x EncryptionInfo {standard, agile, agile > 4096 bytes, absent, extensible 3.3 / 4.3} x DataSpaces storage present/absent x CFB layouts (v3/v4, 5 sector orders, mini order, unused entries, directory order, free sectors), opened with Xlsx and Xlsb from a reader positioned at the start, after the 8 magic bytes or at the end; BIFF: FILEPASS of 5 kinds (BIFF8 RC4, XOR obfuscation, CryptoAPI v2/v4; the 4-byte BIFF5 XOR form in a Book stream) directly after BOF or after WRITEPROTECT, record bodies garbled, mini stream or regular sectors, with or without an (unencrypted) VBA project, CFB layouts; every reader fed whole or in reads of at most 7 / 500 bytes; ods: manifests (plain, or with comments and line breaks between and inside the entries) with 3-5 entries and encryption-data on the first, a middle, the last, all or several entries, ciphertext content; converse: unencrypted workbooks of all four formats (xlsx under every encoding of C01, xls under CFB layouts with extra streams or an embedded encrypted OOXML object, names and strings that spell 'EncryptedPackage' / 'FILEPASS' / 'encryption-data') must open; full product for ods, <= 4 deviations (thorough: full product) for ooxml, biff and plain; non-trivial = non-default choice");
     rep.assume("ciphertext is pseudo-random bytes; EncryptedPackage starts with its 8-byte size prefix");
     let stats = Mutex::new(Stats::default());
     ["ooxml", "biff", "ods", "plain"].par_iter().for_each(|fam| {
